@@ -90,6 +90,9 @@ def check_normalised(raw, out, mode, eps=2.0 ** -52):
                         acc = np.float32(acc + np.float32(x))
                     sums.add(float(acc))
             must_zero = sums == {0.0}
+            if must_zero and any(isinstance(v, Q) for v in vals) and sum((Q(v) for v in vals), Q(0)) != 0:
+                # rationals next to floats: the rational type absorbs the floats exactly, so the library's own sum is the exact one
+                must_zero = False
             may_zero = 0.0 in sums or abs(math.fsum(fl)) <= 4 * len(fl) * eps * math.fsum(abs(x) for x in fl)
             factor = None
     if must_zero:
